@@ -215,6 +215,38 @@ func raceMode(a map[string]string) {
 						}
 					}(gi)
 				}
+				// the tide: one more goroutine grows the shared container far beyond its minimum and drains it again, over
+				// and over, while the others keep writing their keys - grow and shrink windows with concurrent writers
+				// on the same chains (at least two full tides per round)
+				wg.Add(1)
+				go func() {
+					defer wg.Done()
+					for tide := 0; ; tide++ {
+						if tide >= 2 {
+							select {
+							case <-stop:
+								return
+							default:
+							}
+						}
+						for j := 0; j < 600; j++ {
+							tk := fmt.Sprint("tide", j)
+							if isCache {
+								c.Set(tk, newPayload(j), time.Hour)
+							} else {
+								m.Store(tk, newPayload(j))
+							}
+						}
+						for j := 0; j < 600; j++ {
+							tk := fmt.Sprint("tide", j)
+							if isCache {
+								c.Delete(tk)
+							} else {
+								m.Delete(tk)
+							}
+						}
+					}
+				}()
 				time.Sleep(time.Duration(ms) * time.Millisecond)
 				close(stop)
 				wg.Wait()
